@@ -20,14 +20,15 @@ theorem InvD.pres_d5 {cfg : Cfg} {s s' : State} {l : Label} (hB : InvB s) (hC : 
   have hgr := grace_le_G cfg s
   have hL1 : ∀ t r, s.t0 = some t → stoppingPhase s → r ≠ .startupCleanup → s.st (.root r) = .running → s.now = t :=
     fun t r ht hp hr hst => hI.now_eq_root ht hp hr hst
-  have hL2 : ∀ t i, s.t0 = some t → stoppingPhase s → i < s.nSubs → s.st (.sub i) = .running → s.now = t :=
+  have hL2 : ∀ t i, s.t0 = some t → stoppingPhase s → i < s.nSubs → s.st (.sub i) = .running →
+      s.now = t ∨ (s.kind i = .pinger ∧ s.now ≤ t + cfg.E) :=
     fun t i ht hp hi hst => hI.now_eq_sub hB ht hp hi hst
   have hL3 : s.rt ≠ .waiting → (s.st (.root .startupCleanup)).ended = false → stoppingPhase s :=
     fun hn hl => stoppingPhase_of_live hC hn hl
   have hc11 := hC.scOver
   have hkO : ∀ r : Root, r.kind = .observer → r ≠ .startupCleanup := by intro r; cases r <;> simp [Root.kind]
   have hkS : ∀ r : Root, r.kind = .simple → r ≠ .startupCleanup := by intro r; cases r <;> simp [Root.kind]
-  obtain ⟨h0, h1, h2, h3, h4, h5, h6, h7, h8, h9, h10, h11, h12, h13, h14⟩ := hI
+  obtain ⟨h0, h1, h2, h3, h4, h5, h6, h7, h8, h9, h10, h11, h12, h13, h14, h15, h16, h17⟩ := hI
   cases l <;> simp only [step] at h
   all_goals (first | (exfalso; simp [Label.grpD, Label.grp] at hg; done) | skip)
   all_goals (repeat' (split at h))
@@ -35,15 +36,56 @@ theorem InvD.pres_d5 {cfg : Cfg} {s s' : State} {l : Label} (hB : InvB s) (hC : 
   all_goals (cases h)
   all_goals (first | (exfalso; simp only [Label.grpD, *] at hg; done) | (exfalso; simp only [Label.grpD, *] at hg; omega) | skip)
   all_goals (try simp only [allRootsEnded_iff, anyRootEnded_iff, othersEnded_iff, hungLive_false_iff,
-    noLiveWorkerOf_iff, noLiveSub_iff] at *)
-  all_goals (refine ⟨?_, ?_, ?_, ?_, ?_, ?_, ?_, ?_, ?_, ?_, ?_, ?_, ?_, ?_, ?_⟩)
+    noLiveWorkerOf_iff, noLiveSub_iff, noLiveStream_iff] at *)
+  all_goals constructor
   all_goals (first | exact h0 | exact h1 | exact h2 | exact h3 | exact h4 | exact h5 | exact h6 | exact h7 | exact h8
-                   | exact h9 | exact h10 | exact h11 | exact h12 | exact h13 | exact h14 | skip)
+                   | exact h9 | exact h10 | exact h11 | exact h12 | exact h13 | exact h14 | exact h15 | exact h16 | exact h17 | skip)
   all_goals (try simp only [kind_orchestrator_iff, kind_killer_iff, kind_flagChecker_iff, kind_ultimate_iff,
     kind_startupCleanup_iff, kind_coreWatch_iff] at *)
   all_goals (try subst_vars)
   all_goals (try dsimp only)
-  all_goals (grind [upd, Root.kind, TS.active, TS.live, TS.ended, TS.isStopping, failTS, cancelSubs,
+  -- focused attempts, field by field, with a pruned context (the general `grind` below is the fallback)
+  all_goals (try (case a =>
+    (try clear h0); (try clear h1); (try clear h2); (try clear h3); (try clear h4); (try clear h6); (try clear h7); (try clear h8); (try clear h9); (try clear h10); (try clear h11); (try clear h12); (try clear h13); (try clear h14); (try clear h15); (try clear h16); (try clear h17); (try clear hb2); (try clear hb3); (try clear hb4); (try clear hb9); (try clear hb10); (try clear hb12); (try clear hc11); (try clear hgr); (try clear hL2); (try clear hg); (try clear hl)
+    grind [upd, Root.kind, TS.active, TS.live, TS.ended, TS.isStopping, failTS, cancelSubs, cancelPingers,
+    cancelRoots, cancelRootsV, Pend.ts, scBeforeCleanup, scLate, scEarly, stoppingPhase, G, grace]))
+  all_goals (try (case b =>
+    (try clear h0); (try clear h2); (try clear h3); (try clear h4); (try clear h7); (try clear h8); (try clear h9); (try clear h10); (try clear h11); (try clear h12); (try clear h13); (try clear h14); (try clear h15); (try clear h16); (try clear h17); (try clear hb2); (try clear hb3); (try clear hb4); (try clear hb9); (try clear hb10); (try clear hb12); (try clear hc11); (try clear hL2); (try clear hL3); (try clear hlc); (try clear hg); (try clear hl)
+    grind [upd, Root.kind, TS.active, TS.live, TS.ended, TS.isStopping, failTS, cancelSubs, cancelPingers,
+    cancelRoots, cancelRootsV, Pend.ts, scBeforeCleanup, scLate, scEarly, stoppingPhase, G, grace]))
+  all_goals (try (case c =>
+    (try clear h0); (try clear h1); (try clear h2); (try clear h3); (try clear h4); (try clear h6); (try clear h8); (try clear h9); (try clear h10); (try clear h11); (try clear h12); (try clear h13); (try clear h14); (try clear h15); (try clear h16); (try clear hb3); (try clear hb4); (try clear hc11); (try clear hgr); (try clear hL3); (try clear hkO); (try clear hkS); (try clear hg); (try clear hl)
+    grind [upd, Root.kind, TS.active, TS.live, TS.ended, TS.isStopping, failTS, cancelSubs, cancelPingers,
+    cancelRoots, cancelRootsV, Pend.ts, scBeforeCleanup, scLate, scEarly, stoppingPhase, G, grace]))
+  all_goals (try (case d =>
+    (try clear h0); (try clear h1); (try clear h3); (try clear h4); (try clear h5); (try clear h6); (try clear h9); (try clear h10); (try clear h11); (try clear h12); (try clear h13); (try clear h14); (try clear h15); (try clear h16); (try clear hb3); (try clear hb4); (try clear hb8); (try clear hb10); (try clear hb12); (try clear hc11); (try clear hL3); (try clear hkO); (try clear hkS); (try clear hlc); (try clear hg); (try clear hl)
+    grind [upd, Root.kind, TS.active, TS.live, TS.ended, TS.isStopping, failTS, cancelSubs, cancelPingers,
+    cancelRoots, cancelRootsV, Pend.ts, scBeforeCleanup, scLate, scEarly, stoppingPhase, G, grace]))
+  all_goals (try (case e =>
+    (try clear h0); (try clear h1); (try clear h2); (try clear h3); (try clear h4); (try clear h5); (try clear h6); (try clear h7); (try clear h8); (try clear h10); (try clear h11); (try clear h12); (try clear h13); (try clear h14); (try clear h15); (try clear h16); (try clear h17); (try clear hb2); (try clear hb3); (try clear hb4); (try clear hb8); (try clear hb9); (try clear hb10); (try clear hb12); (try clear hgr); (try clear hL1); (try clear hL2); (try clear hkO); (try clear hkS); (try clear hlc); (try clear hg); (try clear hl)
+    grind [upd, Root.kind, TS.active, TS.live, TS.ended, TS.isStopping, failTS, cancelSubs, cancelPingers,
+    cancelRoots, cancelRootsV, Pend.ts, scBeforeCleanup, scLate, scEarly, stoppingPhase, G, grace]))
+  all_goals (try (case dS =>
+    (try clear h0); (try clear h1); (try clear h2); (try clear h3); (try clear h4); (try clear h5); (try clear h6); (try clear h7); (try clear h8); (try clear h9); (try clear h10); (try clear h11); (try clear h12); (try clear h13); (try clear h14); (try clear h17); (try clear hb3); (try clear hb4); (try clear hb8); (try clear hb9); (try clear hb10); (try clear hb12); (try clear hc11); (try clear hgr); (try clear hL3); (try clear hkO); (try clear hkS); (try clear hlc); (try clear hg); (try clear hl)
+    grind [upd, Root.kind, TS.active, TS.live, TS.ended, TS.isStopping, failTS, cancelSubs, cancelPingers,
+    cancelRoots, cancelRootsV, Pend.ts, scBeforeCleanup, scLate, scEarly, stoppingPhase, G, grace]))
+  all_goals (try (case p =>
+    (try clear h0); (try clear h1); (try clear h2); (try clear h3); (try clear h4); (try clear h5); (try clear h6); (try clear h7); (try clear h8); (try clear h9); (try clear h10); (try clear h11); (try clear h12); (try clear h13); (try clear h14); (try clear h15); (try clear h16); (try clear hb2); (try clear hb3); (try clear hb4); (try clear hb8); (try clear hb9); (try clear hb10); (try clear hc11); (try clear hgr); (try clear hL2); (try clear hL3); (try clear hkO); (try clear hkS); (try clear hlc); (try clear hg); (try clear hl)
+    grind [upd, Root.kind, TS.active, TS.live, TS.ended, TS.isStopping, failTS, cancelSubs, cancelPingers,
+    cancelRoots, cancelRootsV, Pend.ts, scBeforeCleanup, scLate, scEarly, stoppingPhase, G, grace]))
+  all_goals (try (case dlStream =>
+    (try clear h0); (try clear h1); (try clear h2); (try clear h3); (try clear h4); (try clear h5); (try clear h6); (try clear h7); (try clear h8); (try clear h9); (try clear h10); (try clear h11); (try clear h12); (try clear h13); (try clear h14); (try clear h16); (try clear h17); (try clear hb2); (try clear hb3); (try clear hb4); (try clear hb8); (try clear hb9); (try clear hb10); (try clear hb12); (try clear hc9); (try clear hc10); (try clear hc11); (try clear hgr); (try clear hL1); (try clear hL2); (try clear hL3); (try clear hkO); (try clear hkS); (try clear hlc); (try clear hg); (try clear hl)
+    grind [upd, Root.kind, TS.active, TS.live, TS.ended, TS.isStopping, failTS, cancelSubs, cancelPingers,
+    cancelRoots, cancelRootsV, Pend.ts, scBeforeCleanup, scLate, scEarly, stoppingPhase, G, grace]))
+  all_goals (try (case dlSub =>
+    (try clear h0); (try clear h1); (try clear h3); (try clear h4); (try clear h5); (try clear h6); (try clear h7); (try clear h8); (try clear h9); (try clear h10); (try clear h11); (try clear h12); (try clear h13); (try clear h14); (try clear h15); (try clear h16); (try clear h17); (try clear hb2); (try clear hb3); (try clear hb4); (try clear hb8); (try clear hb9); (try clear hb10); (try clear hb12); (try clear hc9); (try clear hc10); (try clear hc11); (try clear hL1); (try clear hL2); (try clear hL3); (try clear hkO); (try clear hkS); (try clear hlc); (try clear hg); (try clear hl)
+    grind [upd, Root.kind, TS.active, TS.live, TS.ended, TS.isStopping, failTS, cancelSubs, cancelPingers,
+    cancelRoots, cancelRootsV, Pend.ts, scBeforeCleanup, scLate, scEarly, stoppingPhase, G, grace]))
+  all_goals (try (case dlRoot =>
+    (try clear h0); (try clear h2); (try clear h3); (try clear h4); (try clear h5); (try clear h6); (try clear h7); (try clear h8); (try clear h9); (try clear h10); (try clear h11); (try clear h12); (try clear h13); (try clear h14); (try clear h15); (try clear h16); (try clear h17); (try clear hb2); (try clear hb3); (try clear hb4); (try clear hb8); (try clear hb9); (try clear hb10); (try clear hb12); (try clear hc9); (try clear hc10); (try clear hc11); (try clear hgr); (try clear hL1); (try clear hL2); (try clear hL3); (try clear hkO); (try clear hkS); (try clear hlc); (try clear hg); (try clear hl)
+    grind [upd, Root.kind, TS.active, TS.live, TS.ended, TS.isStopping, failTS, cancelSubs, cancelPingers,
+    cancelRoots, cancelRootsV, Pend.ts, scBeforeCleanup, scLate, scEarly, stoppingPhase, G, grace]))
+  all_goals (grind [upd, Root.kind, TS.active, TS.live, TS.ended, TS.isStopping, failTS, cancelSubs, cancelPingers,
     cancelRoots, cancelRootsV, Pend.ts, scBeforeCleanup, scLate, scEarly, stoppingPhase, G, grace])
 
 end Kopf.C20
